@@ -416,7 +416,7 @@ impl<'a> G<'a> {
         }
         if self.u.coin(1, 10) { self.feat("literal-trigger-char-before-semi"); let w = self.pick(&["5%", "x %", "a&", "b &&", "%", "&"]); if self.out.ends_with(['%', '&']) { self.p(" "); } self.p(w); }
     }
-    fn name_expr(&mut self) { match self.u.below(8) { 6 => { self.name_builtin(); if self.u.coin(1, 2) { self.p("_s"); } } 7 => { let v = self.pick(MVARS); self.p(v); self.name_builtin(); } 5 => { self.feat("name-expr-call"); self.p("%"); let m = self.pick(CALLNAMES); self.p(m); self.p("(a)"); if self.u.coin(1, 2) { self.p("_s"); } } 0 | 1 => { let v = self.pick(MVARS); self.p(v); } 2 => { let v = self.pick(MVARS); self.p(v); self.mvar(false); } 3 => { self.mvar(false); } _ => { let v = self.pick(MVARS); self.p(v); self.p("_"); self.p("&i."); self.p("x"); } } }
+    fn name_expr(&mut self) { match self.u.below(9) { 8 => { self.feat("name-expr-bare-calls"); self.p("%"); let m = self.pick(CALLNAMES); self.p(m); if self.u.coin(1, 2) { self.p("%"); let m = self.pick(CALLNAMES); self.p(m); } } 6 => { self.name_builtin(); if self.u.coin(1, 2) { self.p("_s"); } } 7 => { let v = self.pick(MVARS); self.p(v); self.name_builtin(); } 5 => { self.feat("name-expr-call"); self.p("%"); let m = self.pick(CALLNAMES); self.p(m); self.p("(a)"); if self.u.coin(1, 2) { self.p("_s"); } } 0 | 1 => { let v = self.pick(MVARS); self.p(v); } 2 => { let v = self.pick(MVARS); self.p(v); self.mvar(false); } 3 => { self.mvar(false); } _ => { let v = self.pick(MVARS); self.p(v); self.p("_"); self.p("&i."); self.p("x"); } } }
     fn let_stmt(&mut self) { self.feat("let"); self.pk("%let"); self.rws(); self.name_expr(); self.ows(); self.del_mark("=", "ASSIGN", "MissingExpectedAssign", false); if self.u.coin(1, 6) { self.quote_call(); } else { self.ows(); } self.text_expr(); self.mark(";", MK::Delim("SEMI", false)); }
     // a macro quoting function directly after the '=' (it cannot continue a name expression, so a left-out '=' is still
     // diagnosed right after the name even without a blank in its place)
